@@ -11,6 +11,7 @@ import Engeom.Driver.Curve
 import Engeom.Driver.C15
 import Engeom.Driver.C16
 import Engeom.Driver.C17
+import Engeom.Driver.C19
 
 def dispatch (op : String) (args : List String) : Option String :=
   match (op.splitOn ".").head! with
@@ -28,6 +29,7 @@ def dispatch (op : String) (args : List String) : Option String :=
   | "select" => DrvC14.handle op args
   | "topo" => DrvC12.handle op args
   | "series" => DrvC17.handle op args
+  | "frame" | "basis" | "plane" => DrvC19.handle op args
   | _ => none
 
 partial def loop (h : IO.FS.Stream) (out : IO.FS.Stream) : IO Unit := do
